@@ -8,6 +8,10 @@ CLAIMS = {
    text="Lean 4 theorems over the Quorum layer (model of CheckPoints::add_check_points and LightClientProtocol::finalize_check_points): final check points are never rewritten and the final index never decreases, along every event history (C07.immutable, immutable_history); every newly final index is backed by a quorum (ceil(max_outbound/2)) of distinct proven peers reporting the stored values since the previous final one (C07.quorum); a proven peer contradicting the final value is banned and nobody else (C07.contradiction_banned); fewer deviating peers than the quorum can neither finalize another value nor block agreement (C07.minority_harmless); accepted batches are aligned, contiguous, anchored (C07.add_checked) — for any number of peers, vector lengths and tie-breaks. Tied to /repo by operation-sequence correspondence on the real Peers/LightClientProtocol objects (1..6 peers, max_outbound 1..8, honest/deviating vectors, reconnects) with full state dumps after every finalize and an independent quorum/immutability/ban oracle.",
    note="Trusted: Lean kernel; standard axioms; harness (op generator, hash<->id abstraction, oracle). HashMap iteration order of the implementation enters the model as the universally quantified `choices`. Storage is modelled as the list of final check points (RocksDB assumed to store what is put).",
    technique="Lean 4 proof (loop invariants over the agreement loop) + operation-sequence differential correspondence", ref="5 C07"),
+ 'C13': dict(
+   text="Lean 4 theorems over the Kv layer (model of build_query_options, get_cells, get_transactions in both modes and get_cells_capacity over an ordered byte-keyed store with RocksDB seek semantics): following last_cursor page by page yields every matching entry exactly once in key order, for every strictly sorted store, prefix, page size >= 1 and filter (C13.cells_pages_partition, txs_pages_partition); descending = reverse of ascending (cells_desc_is_reverse); capacity = sum over the returned cells (capacity_eq_sum); grouped pages flatten to the ungrouped scan with one transaction per group (grouped_page); the search prefix selects exactly the entries whose *script* has the prefix (prefix_exact; witness of the ambiguity fixed in service.rs). Tied to /repo by running the real BlockFilterRpcImpl on directly constructed index contents, three-way compared with the model and with a semantic recomputation from the dump.",
+   note="Trusted: Lean kernel; standard axioms; harness (store builder, JSON result decoding, semantic oracle). Hypotheses stated in the theorems: keys strictly sorted and byte-valued, no matching key longer than the descending start key (prefix ++ 0xff x (65535 - args_len)). RocksDB iterator/snapshot semantics are assumed as modelled (seek to first >= / last <=). Filter range conventions (script_len closed, others half-open) are the modelled conventions.",
+   technique="Lean 4 proof (order/prefix lemmas, paging induction) + RPC-level differential correspondence with semantic oracle", ref="5 C13"),
  'C14': dict(
    text="Lean 4 theorems over the Difficulty layer (model of verify_tau / verify_total_difficulty / check_total_difficulty_limit / compact_to_difficulty in Except-monad machine arithmetic): never aborts for any input (C14.no_abort), accepted end points lie in the tau cone (C14.sound, C14.tau_sound), every legal epoch history is accepted (C14.complete, complete_same_epoch, complete_tau) — all unbounded in epochs/values. Tied to /repo by function-level differential execution of model and implementation (random legal histories up to 4000 epochs with 3..230-bit difficulties, exhaustive small grid, boundary values of every field) plus an independent legality/cone oracle.",
    note="Trusted: Lean kernel; propext/Classical.choice/Quot.sound; harness generators + oracle; numext U256 semantics as exercised. Hypotheses: tau >= 1 (TAU = 2), et <= 2^256-1 (a U256). compact_to_difficulty is mirrored in the model and differentially tested, not verified.",
